@@ -1,15 +1,19 @@
 #!/bin/bash
-# seed_recheck.sh <seed-dir-name> <property ids...>: apply a kept seeded patch to /repo, run the given checks (quick), undo.
+# seed_recheck.sh <seed-dir-name> <property ids...>: apply a kept seeded patch in a scratch worktree of /repo, run the given checks (quick)
+# against it (VERIF_REPO/VERIF_OUT), remove the worktree. /repo itself is never touched.
 cd /verif
+export GOFLAGS=-mod=mod GOPROXY=off GOSUMDB=off GOTOOLCHAIN=local
 S=$1; shift
 P=/verif/seeded/$S/patch.diff
-git -C /repo status --short | grep -q . && { echo "/repo not clean"; exit 1; }
-git -C /repo apply $P 2>/dev/null || git -C /repo apply -3 $P 2>/dev/null || { echo "$S: patch does not apply"; git -C /repo reset -q --hard HEAD; exit 1; }
-( cd /repo && GOFLAGS=-mod=mod GOPROXY=off go build ./... ) || { echo "$S: does not build"; git -C /repo checkout -- .; exit 1; }
+VW=/tmp/rw-$S; VO=/tmp/ro-$S
+git -C /repo worktree remove --force $VW >/dev/null 2>&1; rm -rf $VW $VO
+git -C /repo worktree add --detach $VW HEAD -q
+git -C $VW apply $P 2>/dev/null || git -C $VW apply -3 $P 2>/dev/null || { echo "$S: patch does not apply"; git -C /repo worktree remove --force $VW; exit 1; }
+( cd $VW && go build ./... ) || { echo "$S: does not build"; git -C /repo worktree remove --force $VW; exit 1; }
 for p in "$@"; do
-  timeout 1500 ./check $p quick > /verif/seeded/$S/recheck_$p.log 2>&1; rc=$?
+  VERIF_REPO=$VW VERIF_OUT=$VO timeout 1800 ./check $p quick > /verif/seeded/$S/recheck_$p.log 2>&1; rc=$?
+  sed -i "s#$VO#/verif#g" /verif/seeded/$S/recheck_$p.log
   echo "$S check $p rc=$rc $(grep -c '^VIOLATION' /verif/seeded/$S/recheck_$p.log) violations; $(grep '^VIOLATION' /verif/seeded/$S/recheck_$p.log | head -2 | sed 's/.*# //' | tr '\n' '|' | cut -c1-220)"
   grep '^INCONCLUSIVE\|^ENGINE' /verif/seeded/$S/recheck_$p.log | head -2 | cut -c1-200
 done
-git -C /repo reset -q --hard HEAD
-git -C /repo status --short | head -2
+git -C /repo worktree remove --force $VW >/dev/null 2>&1; rm -rf $VW $VO
